@@ -13,5 +13,5 @@ CONFIG = dict(
           "updated its ancestors' vectors before the rollback) and at least one block decided afterwards in the same epoch; distinct by "
           "hash of scenario and injection counts."),
     assumptions=["rejected events are not stored in the event source (as real callers do)", "forking validators hold < 1/3 of the weight"],
-    units=[dict(test="TestC07NoTrace", quick=300, thorough=12800, shards=16)],
+    units=[dict(test="TestC07NoTrace", quick=300, thorough=38400, shards=16)],
 )
